@@ -19,6 +19,9 @@ Sub-oracles (all only where EOM.successTemperatureProfile is True)
                        with a T33 deficit above the forward image of the window and above the accuracy of the
                        supplied boundary constants (10 hydroRelTol w; in the tails also 10x their measured
                        inconsistency)
+  t33-noroot-minimum   at such a point the returned T_i is the minimiser of R_i, as findPlasmaProfilePoint documents
+                       ("If no solution, the minimum of LHS"): R_i(T_i) - min R_i below the forward image of the
+                       bounded Brent search's tolerance window (the known class above does not hide a wrong T there)
   asym-t33 / asym-t30 / asym-branch
                        first/last grid point versus the matching values (T-, -v-), (T+, -v+)
   vmid-convention      velocityMid of findHydroBoundaries is the wall-frame mid-point -(v+ + v-)/2
@@ -417,6 +420,25 @@ def check_case(case) -> Verdict:
             for i in todo:
                 Tmin, Rmin = res.minimum(int(i), 0.02 * min(Tp, Tm), 2.5 * max(Tp, Tm))
                 if Rmin > 0:
+                    # documented fallback ("If no solution, the minimum of LHS"): the returned T must be the
+                    # minimiser of the residual to the accuracy of scipy's bounded Brent search (xatol 1e-5
+                    # absolute + sqrt(eps) relative; x10), judged by the forward image of that window around the
+                    # oracle's own minimiser.  Only where the minimum is interior to WallGo's search interval.
+                    Thi_w = 2 * max(Tp, Tm)
+                    if 0.03 * min(Tp, Tm) < Tmin < 0.98 * Thi_w and Tprof[i] < 0.999 * Thi_w:
+                        v.checked("t33-noroot-minimum")
+                        sl_i = slice(int(i), int(i) + 1)
+                        dTm = 10 * (1e-5 + 1.5e-8 * Tmin)
+                        img = max(float(res.R(Tmin + dTm, sl_i)[0]) - Rmin,
+                                  float(res.R(max(Tmin - dTm, 1e-12), sl_i)[0]) - Rmin, 0.0)
+                        excess = float(r0[i]) - Rmin
+                        if excess > img + 64 * EPS * float(res.scale(Tprof)[i]) + 1e-9 * Rmin:
+                            v.fail("t33-noroot-minimum", cls,
+                                   f"grid point {int(i)}: the T33 equation has no root (residual minimum {Rmin:.3e} at "
+                                   f"T={Tmin:.8g}); returned T={Tprof[i]!r} is not that minimum: residual there "
+                                   f"{r0[i]:.3e}, excess {excess:.2e} against the image {img:.1e} of the minimiser's "
+                                   f"tolerance window; vw={vw:.4f} widths*Tn={shape['w']}", vw=vw, index=int(i))
+                            break
                     tail = bool(np.all(np.abs(z[i] / widths + offs) >= 3.0))
                     if r0[i] <= K_ETA * max(eta_abs if tail else 0.0, hydro_rtol * wloc[i]):
                         n_eta += 1
